@@ -15,7 +15,10 @@ design half : TLC on spec/MCApiAlgebra.tla -- (a) every (function, arguments)
 binding half: harness/apidrv calls the REAL functions
               alg    the same input space, one ndjson line per call
               copy   mutate what the copying getters returned, re-read
-              help   wait/ask helpers in known machine outcomes; the async
+              help   wait/ask helpers in known machine outcomes; the Sync
+                     helpers on lists whose members differ (active before x
+                     vetoing handler per member), judged on the activity of
+                     every member read back from the machine; the async
                      helpers in every scenario of the step model, the ticks of
                      the awaited state read from the real machine
               total  every exported function/method (generated table +
@@ -37,8 +40,9 @@ PROP = "C20"
 
 BOUNDS = {
     # MaxLen: unary/binary list functions; MaxLenVar/MaxVar: variadic ones
-    "quick": dict(MaxLen=3, MaxLenVar=2, MaxVar=2, MaxQueue=2),
-    "thorough": dict(MaxLen=3, MaxLenVar=3, MaxVar=2, MaxQueue=3),
+    # MaxList: member lists handed to the Sync helpers (active before x vetoing per member)
+    "quick": dict(MaxLen=3, MaxLenVar=2, MaxVar=2, MaxQueue=2, MaxList=2),
+    "thorough": dict(MaxLen=3, MaxLenVar=3, MaxVar=2, MaxQueue=3, MaxList=3),
 }
 
 INVS = ["Inv_NoPanic", "Inv_Law", "Inv_Copy", "Inv_Helper", "Inv_Total"]
@@ -183,7 +187,8 @@ def drive(binary, tier, d, only=None, total_filter=""):
         stats["copy"] = go(["-mode", "copy", "-out", os.path.join(d, "copy"), "-shards", "1"])
     if only in (None, "helper"):
         stats["help"] = go(["-mode", "help", "-out", os.path.join(d, "help"), "-shards", "1",
-                            "-seed", str(seed()), "-asyncreps", "1" if tier == "quick" else "6"])
+                            "-seed", str(seed()), "-asyncreps", "1" if tier == "quick" else "6",
+                            "-maxlist", str(b["MaxList"])])
         stalls = {k: v for k, v in stats["help"]["stats"].items() if k.startswith("async-ret:stall")}
         if stalls:
             raise Inconclusive("the async helper driver stalled: %s" % stalls)
@@ -215,6 +220,10 @@ def sig_of(tag, line):
         # disposed machine; the functions affected are listed in the replay object
         return dict(part="helper", root=HELPER_ROOTS.get(line["base"], line["base"]),
                     disposed=line["sc"]["disposed"])
+    if line["ev"] == "helpl":
+        # the entry points of one base share one body; one group per wrong answer
+        return dict(part="helper", root=line["base"], disposed=line["sc"]["disposed"],
+                    lists=True, ret=line["ret"].split(":")[0])
     if line["ev"] == "wait":
         return dict(part="helper", root=line["fn"], disposed=False)
     if line["ev"] == "async":
@@ -272,6 +281,7 @@ def validate(files, rep, tier, want=None):
         agg["allcells"] = x["allcells"]
         agg["asyncsc"] = max(agg["asyncsc"], x["asyncsc"])
         agg["asyncall"] = x["asyncall"]
+        agg["listsc"] = max(agg["listsc"], x["listsc"])
         need = sorted(set(l for l, _ in x["viol"]) | set(l for l, _ in x["drift"]))
         lines = {}
         if need:
@@ -334,6 +344,11 @@ def validate(files, rep, tier, want=None):
                     "ctx expired by the driver: %s (%d cases; activation via/mode: %s)" % (
                         ex["fn"], json.dumps(ex["add"]), json.dumps(ex["sc"]), ex["ret"], ex["t0"], ex["t1"],
                         ex["te"], ex["mut"], ex["expired"], g["n"], ", ".join(sorted(g.get("scs", [])))))
+        elif ex["ev"] == "helpl":
+            text = ("%s(%s) in scenario %s, members (active before / vetoing) %s, returned %s -- not what "
+                    "happened to the machine: active before %s, after %s, mutation accepted: %s (%d cases)" % (
+                        ex["fn"], json.dumps(ex["states"]), json.dumps(ex["sc"]), json.dumps(ex["list"]),
+                        ex["ret"], json.dumps(ex["before"]), json.dumps(ex["after"]), ex["acc"], g["n"]))
         elif ex["ev"] in ("help", "wait"):
             text = "%s in scenario %s returned %s -- not what happened to the machine (%d cases)" % (
                 ex["fn"], json.dumps(ex.get("sc", dict(chans=ex.get("chans"), ctx=ex.get("ctx")))),
@@ -344,7 +359,7 @@ def validate(files, rep, tier, want=None):
                 ex.get("detail", "")[:300].replace("\n", " | "))
         if ex["ev"] == "call":
             sig = dict(sig, phase=ex["phase"], argclass=ex["cls"])
-        if ex["ev"] in ("help", "wait", "async"):
+        if ex["ev"] in ("help", "helpl", "wait", "async"):
             text = "[%s] " % ",".join(sorted(g["fns"])) + text
         rep.violation(sig, dict(kind="api", property=PROP, part=sig["part"], signature=sig,
                                 tier=tier, example=ex, functions=sorted(g["fns"]),
@@ -394,7 +409,7 @@ def distinct_nontrivial(files):
                     keys.add(l)
             elif x["ev"] == "call":
                 keys.add((x["fn"], x["phase"], x["cls"]))
-            elif x["ev"] in ("help", "wait", "mutret"):
+            elif x["ev"] in ("help", "helpl", "wait", "mutret"):
                 keys.add(l)
             elif x["ev"] == "async":
                 keys.add((x["fn"], json.dumps(x["sc"], sort_keys=True), json.dumps(x["shape"], sort_keys=True)))
@@ -421,6 +436,11 @@ def check(tier):
         if agg["asyncsc"] != agg["asyncall"]:
             rep.drift.append("the async helper driver covered %d of the %d scenarios of the specification" % (
                 agg["asyncsc"], agg["asyncall"]))
+        # 2 bases x {direct, queued, disposed} x every list of 1..MaxList members over 4 kinds
+        list_space = 2 * 3 * sum(4 ** n for n in range(1, BOUNDS[tier]["MaxList"] + 1))
+        if agg["listsc"] != list_space:
+            rep.drift.append("the Sync helper list driver covered %d of the %d scenarios of the specification" % (
+                agg["listsc"], list_space))
         for k, why in sorted(tot.get("unbuildable", {}).items()):
             rep.drift.append("the sweep has no argument rule for %s (%s): not covered" % (k, why))
         # which functions break on the real code vs what the as-found model predicts
@@ -434,6 +454,9 @@ def check(tier):
                                answers={k.split(":", 1)[1]: v for k, v in stats["help"]["stats"].items()
                                         if k.startswith("async-ret:")},
                                scenarios=agg["asyncsc"], scenarios_spec=agg["asyncall"]),
+            sync_helper_lists=dict(cases=sum(v for k, v in stats["help"]["stats"].items()
+                                             if k.startswith("helplist:")),
+                                   distinct_scenarios=agg["listsc"], scenarios_spec=list_space),
             sweep=dict(targets=tot["targets"], calls=tot["calls"], outcomes=tot["outcomes"],
                        worker_restarts=tot["restarts"], rechecked=tot.get("blocked_rechecked"),
                        recheck_changed=tot.get("blocked_unconfirmed"),
@@ -448,7 +471,9 @@ def check(tier):
                  "vectors over ticks 0..2, queues <= MaxQueue x every Position) on the real "
                  "functions; copy: every listed getter x mutation x {idle, inside a handler with a "
                  "non-empty queue}; helpers: every Sync/Cant/Ask helper x {direct, queued, disposed} "
-                 "x {possible, vetoed}, WaitForAll/Any x channel patterns x ctx; async helpers: the 4 "
+                 "x {possible, vetoed}, the Sync helpers x {direct, queued, disposed} x every list of "
+                 "1..MaxList states x (active before, vetoing handler) per state with the activity of "
+                 "every member read back, WaitForAll/Any x channel patterns x ctx; async helpers: the 4 "
                  "entry points x {W activated by the helper's own transition (added itself / Add "
                  "relation, chain 1..2), by a final handler in the same queue drain (chain 1..2), "
                  "later by another goroutine, by a mutation already queued, never} x W active "
